@@ -593,6 +593,18 @@ class _FunctionPass:
                             f"{dotted} sorts the indices / sums the "
                             f"duplicates of a non-canonical matrix operand "
                             f"in place")
+        if dotted in ("scipy.sparse.linalg.eigs",
+                      "scipy.sparse.linalg.eigsh"):
+            # regular mode (sigma=None) factorises M through M.T, a view
+            for k in call.keywords:
+                if k.arg == "M" and not (isinstance(k.value, ast.Name)
+                                         and env.get("#canonical:"
+                                                     + k.value.id)):
+                    self.effect("inplace-func", kw_roots.get("M", FRESH),
+                                call,
+                                f"{dotted} (regular mode) sorts the indices "
+                                f"of a non-canonical M operand in place "
+                                f"through a view")
         if dotted in UFUNC_AT and call.args:
             self.effect("inplace-func", arg_roots[0], call,
                         f"{dotted} writes its first argument")
